@@ -1,4 +1,5 @@
 import ShpanVerif.Drive.PipeCommon
+import ShpanVerif.Drive.PipeDyn
 /-
 Driver handler for C18: a reusable stream re-materialises identically whatever happened before.
 Spec predicate: every fault-free materialisation of the history delivers the list-level meaning of the
@@ -18,6 +19,7 @@ def check (l : List V) : List Run → List ObsRun → Nat → Bool × String
   | _, _, _ => (true, "")
 
 def handle (c obs : String) : String × Bool × String :=
+  if c.startsWith "DYN " then ShpanVerif.Drive.PipeDyn.handle c obs else   -- FlatMap family (Model/PipeDyn.lean)
   if isSpecOnly c then
     -- reusable sources / operators outside the model (FromIterator, FromMap*, FlatMap, Peek): the harness compares every
     -- fault-free materialisation of the history with a fresh stream value of the same description (Go vs Go)
